@@ -24,7 +24,7 @@ ValueStable(e) == e.v0 = e.v1 /\ e.t0 = e.t1 /\ HashStable(e)
 ByteStable(e)  == e.b0 = e.b1
 OuterOK(e)     == Coded(e) /\ ValueStable(e) /\ (Class(e.typ) = "bytes" => ByteStable(e))
 RlpOK(e)       == OuterOK(e) /\ e.x0 = e.x1
-JsonOK(e)      == e.typ = "tx" => (e.j = "ok" /\ e.jv = e.v0 /\ e.jh = e.h0 /\ e.js = e.s0 /\ e.jx = e.x0)
+JsonOK(e)      == e.typ = "tx" => (e.j = "ok" /\ e.jv = e.v0 /\ e.jh = e.h0 /\ e.js = e.s0 /\ e.jx = e.x0 /\ e.jq = "ok")
 RowOK(e)       == InUniverse(e) /\ RlpOK(e) /\ JsonOK(e)
 
 AddrOK(e)      == e.sh \in AddressShapes /\ e.err = "ok" /\ e.a1 = e.a0 /\ e.t1 = e.t0
